@@ -156,7 +156,12 @@ def generate(rng, profile):
             script.append(g.new_quote(i, exact=exact))
     if rng.random() < pf.get("p_rate", 0.2) and not frictionless:
         script.append({"op": "rate", "r": rng.choice([0.01, 0.05, -0.01, 0.2])})
-    length = rng.randint(3, 25) if rng.random() < 0.95 else rng.randint(26, 200)
+    from tesim import core
+    if core.tier() == "thorough":
+        # thorough tier: a fatter tail of long histories
+        length = rng.randint(3, 25) if rng.random() < 0.85 else rng.randint(26, 400)
+    else:
+        length = rng.randint(3, 25) if rng.random() < 0.95 else rng.randint(26, 200)
     mix = dict(pf["mix"])
     # swarm: randomly silence some op kinds for this run
     for k in list(mix):
